@@ -585,16 +585,17 @@ func (w *world) runPure(c tcase) result {
 		}
 		// ... of the identifier: the only key material is the key the identifier encodes, and every id is under the DID
 		res.KeyKnown = pub != nil && c.Defect != "symmetric" && c.Defect != "not-json"
-		res.KeyEqual = pub != nil && len(doc1.VerificationMethod) == 1
+		// the identifier's key is in the document and every verification method lives under the DID (derived methods are fine)
+		found, under := false, len(doc1.VerificationMethod) > 0
 		for _, vm := range doc1.VerificationMethod {
-			pk, err := vm.PublicKey()
-			if err != nil || pub == nil || !samePublicKey(pk, pub) {
-				res.KeyEqual = false
+			if pk, err := vm.PublicKey(); err == nil && pub != nil && samePublicKey(pk, pub) {
+				found = true
 			}
-			if vm.ID.DID.String() != idStr || vm.Controller.String() != idStr {
-				res.KeyEqual = false
+			if vm.ID.DID.String() != idStr {
+				under = false
 			}
 		}
+		res.KeyEqual = found && under
 	}
 	res.Dials, res.Requests = w.rec.snapshot()
 	return res
